@@ -15,7 +15,7 @@ import glob
 import json
 import os
 
-from vlib import cnat, cnatl, cbool, cbl, clist, copt, cpair, cfloat, cz, VERIF
+from vlib import cnat, cnatl, cbool, cbl, clist, copt, cpair, cfloat, cz, czl, VERIF
 
 ATOL = 1e-12
 RTOL = 1e-9
@@ -1199,6 +1199,17 @@ def run_mo(ctx, cfg):
             ctx.add("CMoUpd %s %s %s %s %s %s %s %s" % (
                 c_mparams(s), c_mstate(pre), cpop, cnatl([h[1] for h in hv_log]), cfloat(RTOL * max(1.0, maxc, maxc2)),
                 c_mstate(post), cnatl(chosen), cnatl(not_chosen)), dict(case, what="update"))
+            # _select with the sorter the code calls: C04's model of sortLogNondominated (integer values) on the
+            # per-objective ranks of the candidates' weighted values (an order isomorphism, so dominance, the
+            # lexicographic order and hence the fronts and their internal order are those of the float values)
+            nobj_ = len(cand_wv[0]) if cand_wv else 0
+            if len(sel_log) == 1 and nobj_ >= 2 and all(len(w_) == nobj_ for w_ in cand_wv):
+                levels = [sorted(set(float(w_[c_]) for w_ in cand_wv)) for c_ in range(nobj_)]
+                pos_ = [{v_: r_ for r_, v_ in enumerate(lv_)} for lv_ in levels]
+                ranks_ = [[pos_[c_][float(w_[c_])] for c_ in range(nobj_)] for w_ in cand_wv]
+                ctx.hit("mo.select_log_sorter")
+                ctx.add("CMoSelLog %s %s %s %s %s" % (cnat(mu), clist([czl(r_) for r_ in ranks_]), cnatl([h[1] for h in hv_log]),
+                                                      cnatl(chosen), cnatl(not_chosen)), dict(case, what="select-log", ranks=ranks_))
         if not (finite and maxc2 < COND_MAX):
             break
 
@@ -1230,14 +1241,17 @@ def main(run):
     run.assumptions += ["fitness values finite (no NaN)", "initial population of the MO strategy has exactly mu members",
                         "random vectors / evolution paths entering a rank-one update are non-zero (probability-one event)",
                         "condition number of the factors below 1e12"]
-    if not run.build_props():
+    if not run.build_props(extra=["Props/C14_log.v"]):
         # coqc killed by the OOM killer under machine-wide memory pressure leaves no "Error" text:
         # that is not a broken obligation -- try once more
         if run.broken and all("Error" not in (b.get("log") or "") for b in run.broken):
             run.notes.append("build interrupted without a Coq error (killed?); retried once")
             del run.broken[:]
             del run.obligations[:]
-            run.build_props()
+            run.build_props(extra=["Props/C14_log.v"])
+    # _select with C04's model of sortLogNondominated (obligations + Print Assumptions of Props/C14_log.v)
+    if not run.broken:
+        run.build_props(props="Props/C14_log.v")
     rng = run.rng
     ctx = Ctx(run)
     np.seterr(all="ignore")
